@@ -58,57 +58,65 @@ theorem desFieldsOk_of {S : Schema} {d : StructDef} (h : wfgdStruct S d = true) 
   intro f hf
   unfold wfgdStruct at h
   simp only [List.all_eq_true, Bool.and_eq_true, bne_iff_ne, ne_eq] at h
-  have := h f hf
+  have := h.2 f hf
   exact ⟨this.1.1.1, this.1.1.2, this.1.2, this.2⟩
 
-/-- the member statements of a class (no forward conditions) simulate `decFrom` -/
+/-- the member statements of a class (no forward conditions) simulate `decFrom`; `hid` are the members read by the
+    base class (in the decoder's environment, not in the scope of the statements) -/
 theorem decFrom_sim (hnn : ∀ ty b v, r.dec ty b = .ok v → v ≠ .none)
     (hnd : allDistinct (d.fields.map (·.name)) = true) (hgd : DesFieldsOk S d) (sm : Option String)
     (hsm : ∀ f ∈ d.fields, (sm == some (printerName f.name)) = true ↔ ∃ w, f.kind = .sizeF w)
-    (d' : StructDef) (hreb : ∀ st i, rebase d' st i = st) (fs : List Field) :
+    (d' : StructDef) (hreb : ∀ st i, rebase d' st i = st) (hid : List Field) (fs : List Field) :
     ∀ (pre post : List Field) (σ : PyState) (st st' : DecState) (idx : Nat),
-    d.fields = pre ++ fs ++ post → wfFieldsFrom S d pre (fs ++ post) = true →
-    coveredFrom S pre (fs ++ post) = true → earlyFrom pre (fs ++ post) = true →
-    Sim σ st pre → st.queued = [] → decFrom S T r d' fs idx st = .ok st' →
+    d.fields = hid ++ pre ++ fs ++ post → wfFieldsFrom S d (hid ++ pre) (fs ++ post) = true →
+    coveredFrom S (hid ++ pre) (fs ++ post) = true → earlyFrom (hid ++ pre) (fs ++ post) = true →
+    (∀ f ∈ fs, ∀ n ∈ refsOf f, ∀ x ∈ hid, x.name ≠ n) →
+    Sim σ st hid pre → st.queued = [] → decFrom S T r d' fs idx st = .ok st' →
     ∃ σ', execItems S T r (fs.map (fun f => DesItem.field (desFieldAst S d sm f none))) σ = .ok σ' ∧
-      Sim σ' st' (pre ++ fs) ∧ st'.queued = [] ∧ σ'.bufs = σ.bufs := by
+      Sim σ' st' hid (pre ++ fs) ∧ st'.queued = [] ∧ σ'.bufs = σ.bufs ∧
+      (∀ n, (∀ x ∈ fs, localName x ≠ n) → σ'.get n = σ.get n) := by
   induction fs with
   | nil =>
-    intro pre post σ st st' idx _ _ _ _ hS hq hdec
+    intro pre post σ st st' idx _ _ _ _ _ hS hq hdec
     simp only [decFrom, Except.ok.injEq] at hdec
     subst hdec
-    exact ⟨σ, rfl, by simpa using hS, hq, rfl⟩
+    exact ⟨σ, rfl, by simpa using hS, hq, rfl, fun _ _ => rfl⟩
   | cons f rest ih =>
-    intro pre post σ st st' idx hsplit hwf hcov hearly hS hq hdec
+    intro pre post σ st st' idx hsplit hwf hcov hearly hvis hS hq hdec
     unfold decFrom at hdec
     obtain ⟨st1, hstep, hdec⟩ := bind_eq_ok.mp hdec
     simp only [List.cons_append, wfFieldsFrom, coveredFrom, earlyFrom, Bool.and_eq_true] at hwf hcov hearly
-    have hsplit' : d.fields = pre ++ f :: (rest ++ post) := by rw [hsplit]; simp
+    have hsplit' : d.fields = (hid ++ pre) ++ f :: (rest ++ post) := by rw [hsplit]; simp
     have hfd : f ∈ d.fields := by rw [hsplit']; simp
-    have hpred : ∀ x ∈ pre, x ∈ d.fields := fun x hx => by rw [hsplit']; exact List.mem_append_left _ hx
+    have hpred : ∀ x ∈ hid ++ pre, x ∈ d.fields := fun x hx => by rw [hsplit']; exact List.mem_append_left _ hx
     have hne := name_ne_of_split hnd hsplit'
     obtain ⟨hmf, hns, hgk, hgc⟩ := hgd f hfd
     have hfresh : ∀ x ∈ pre, localName x ≠ localName f := by
       intro x hx heq
-      obtain ⟨hmx, hnx, -, -⟩ := hgd x (hpred x hx)
-      exact hne x hx (localName_inj hmx hmf hnx hns heq)
-    have h1 : ∃ σ1, (desFieldAst S d sm f none).exec S T r σ = .ok σ1 ∧ Sim σ1 st1 (pre ++ [f]) ∧ st1.queued = [] ∧
-        σ1.bufs = σ.bufs := by
+      have hx' : x ∈ hid ++ pre := List.mem_append_right _ hx
+      obtain ⟨hmx, hnx, -, -⟩ := hgd x (hpred x hx')
+      exact hne x hx' (localName_inj hmx hmf hnx hns heq)
+    have hvf := hvis f (by simp)
+    have h1 : ∃ σ1, (desFieldAst S d sm f none).exec S T r σ = .ok σ1 ∧ Sim σ1 st1 hid (pre ++ [f]) ∧ st1.queued = [] ∧
+        σ1.bufs = σ.bufs ∧ (∀ n, n ≠ localName f → σ1.get n = σ.get n) := by
       cases hc : f.cond with
-      | none => exact plain_sim hS hq hnn hc hfresh hne hwf.1 hgk (hsm f hfd) (hreb st idx) hstep
+      | none => exact plain_sim hS hq hnn hc hfresh hne hvf hwf.1 hgk (hsm f hfd) (hreb st idx) hstep
       | some c =>
-        have hsome : (lookupField pre c.field).isSome = true := by simpa [hc] using hearly.1
+        have hsome : (lookupField (hid ++ pre) c.field).isSome = true := by simpa [hc] using hearly.1
         have hcc := hcov.1
         unfold condCovered at hcc
         simp only [hc, hsome, if_true] at hcc
-        obtain ⟨σ1, h1, h2, h3, h4⟩ := cond_sim hS hnn hc hfresh hne hwf.1 hgk hgc hcc (hsm f hfd) (hreb st idx) hstep
-        exact ⟨σ1, h1, h2, by rw [h3]; exact hq, h4⟩
-    obtain ⟨σ1, hex1, hS1, hq1, hb1⟩ := h1
-    obtain ⟨σ2, hex2, hS2, hq2, hb2⟩ := ih (pre ++ [f]) post σ1 st1 st' (idx + 1) (by rw [hsplit]; simp) hwf.2 hcov.2
-      hearly.2 hS1 hq1 hdec
-    refine ⟨σ2, ?_, by simpa using hS2, hq2, by rw [hb2, hb1]⟩
-    simp only [List.map_cons, execItems, DesItem.exec, hex1, bind, Except.bind]
-    exact hex2
+        obtain ⟨σ1, h1, h2, h3, h4, h5⟩ := cond_sim hS hnn hc hfresh hne hvf hwf.1 hgk hgc hcc (hsm f hfd) (hreb st idx) hstep
+        exact ⟨σ1, h1, h2, by rw [h3]; exact hq, h4, h5⟩
+    obtain ⟨σ1, hex1, hS1, hq1, hb1, hf1⟩ := h1
+    obtain ⟨σ2, hex2, hS2, hq2, hb2, hf2⟩ := ih (pre ++ [f]) post σ1 st1 st' (idx + 1) (by rw [hsplit]; simp)
+      (by simpa using hwf.2) (by simpa using hcov.2) (by simpa using hearly.2)
+      (fun g hg => hvis g (List.mem_cons_of_mem _ hg)) hS1 hq1 hdec
+    refine ⟨σ2, ?_, by simpa using hS2, hq2, by rw [hb2, hb1], ?_⟩
+    · simp only [List.map_cons, execItems, DesItem.exec, hex1, bind, Except.bind]
+      exact hex2
+    · intro n hn
+      rw [hf2 n (fun x hx => hn x (List.mem_cons_of_mem _ hx)), hf1 n (fun hh => hn f (by simp) hh.symm)]
 
 end
 
